@@ -272,3 +272,28 @@ Theorem C10_has_sub_keys_code_is_model : forall st v subkeys,
   fn_hasSubKeys st v subkeys = Ret (has_sub_keys v subkeys).
 Proof. exact has_sub_keys_code_is_model. Qed.
 Print Assumptions C10_has_sub_keys_code_is_model.
+
+(* ---- tie to the CURRENT sources of the updaters themselves (updatevalues.go: Map.UpdateValuesForPath,
+   updateValuesForKeyPath, updateValue, updateValueForKey): go2v re-translates them on every run in WRITE-BACK mode (the Go
+   code updates the tree in place; the translation returns the new value of every parameter whose tree may change, writes a
+   changed sub-value back to where it was taken from, and rebuilds a collection whose members a loop updates - faithful for
+   trees, i.e. Maps in which no map or slice is reachable along two paths); GenProofs/PureG21.v (helper H11) proves the
+   translations - each with the translated callees plugged in - equal to the functional model [update_kp] /
+   [update_values_for_path] the theorems above are stated with. *)
+From Mxj Require Import GenProofs.PureG5 GenProofs.PureG21.
+
+Theorem C10_update_kp_code_is_model : forall keys fuel st key value m sk cnt, keys <> [] -> length keys <= fuel ->
+  fn_updateValuesForKeyPath (run_updateValue st) fuel st key value m keys sk cnt = ures cnt (update_kp key value keys sk m).
+Proof. exact update_kp_code_is_model. Qed.
+Print Assumptions C10_update_kp_code_is_model.
+
+Theorem C10_update_values_for_path_code_is_model : forall pf st mv newVal path subkeys, g_fieldSep st <> [] ->
+  fn_UpdateValuesForPath pf (fun m => m) (run_getSubKeyMap pf st) (run_updateValuesForKeyPath st) st mv newVal path subkeys
+  = uvp_result mv (update_values_for_path pf (g_fieldSep st) (VMap mv) (newval_of newVal) path subkeys).
+Proof. exact update_values_for_path_code_is_model. Qed.
+Print Assumptions C10_update_values_for_path_code_is_model.
+
+Theorem C10_update_values_for_path_code_no_panic : forall pf st mv newVal path subkeys, g_fieldSep st <> [] ->
+  fn_UpdateValuesForPath pf (fun m => m) (run_getSubKeyMap pf st) (run_updateValuesForKeyPath st) st mv newVal path subkeys <> Crash.
+Proof. exact update_values_for_path_code_no_panic. Qed.
+Print Assumptions C10_update_values_for_path_code_no_panic.
